@@ -31,6 +31,7 @@ type Env struct {
 	pkg       *types.Package
 	depth     int
 	curSt     *State
+	resIdx    int
 }
 
 func (fr *Frame) specEnv(st, old *State) *Env {
@@ -887,6 +888,15 @@ func (env *Env) evalCall(e *SCall) (Val, error) {
 			}
 			v.Typ = types.Typ[types.Int]
 			return v, nil
+		case "res1", "res2":
+			// res1(f(x)): second (third) result of a pure Go call
+			inner, ok := e.Args[0].(*SCall)
+			if !ok || len(e.Args) != 1 {
+				return Val{}, fmt.Errorf("%s needs a call as argument", id.Name)
+			}
+			sub := *env
+			sub.resIdx = int(id.Name[3] - '0')
+			return sub.evalCall(inner)
 		case "inst", "tloc":
 			x, err := env.eval(e.Args[0])
 			if err != nil {
@@ -1030,8 +1040,10 @@ func (env *Env) callPureGo(f *types.Func, recv *Val, argsE []SExpr) (Val, error)
 	if c == nil || !c.Pure {
 		return Val{}, fmt.Errorf("call of %s.%s in a spec needs an 'extern pure' (or pure) contract", pkg, key)
 	}
+	aenv := *env
+	aenv.resIdx = 0
 	for _, a := range argsE {
-		v, err := env.eval(a)
+		v, err := aenv.eval(a)
 		if err != nil {
 			return Val{}, err
 		}
@@ -1041,7 +1053,11 @@ func (env *Env) callPureGo(f *types.Func, recv *Val, argsE []SExpr) (Val, error)
 		return Val{}, fmt.Errorf("pure call %s must have a result", key)
 	}
 	fr.vc.externUsed["extern "+pkg+"::"+key] = true
-	return Val{T: fr.pureApp(env.st, c, 0, sig, recvT, args), Typ: sig.Results().At(0).Type()}, nil
+	ri := env.resIdx
+	if ri >= sig.Results().Len() {
+		return Val{}, fmt.Errorf("pure call %s has no result %d", key, ri)
+	}
+	return Val{T: fr.pureApp(env.st, c, ri, sig, recvT, args), Typ: sig.Results().At(ri).Type()}, nil
 }
 
 // applySpecFunc expands a defined spec function or applies an uninterpreted one.
